@@ -39,7 +39,9 @@ ASSUMPTIONS = ["only the filled part of the data arrays is compared (unwritten "
                "slots hold uninitialised memory in the original)"]
 
 BUFS = ["ReplayBuffer", "LAP", "PrioritizedReplayBuffer", "Sub", "SubPER",
-        "Multi:ReplayBuffer", "Multi:LAP", "Multi:SubPER"]
+        "Multi:ReplayBuffer", "Multi:LAP", "Multi:SubPER",
+        # many tasks, first visited in non-ascending order
+        "Multi12:ReplayBuffer", "Multi12:LAP"]
 MODS = ["mlp", "gaussian", "layernorm", "doubleq", "sale", "encoder_policy",
         "ensemble", "tanh_policy", "gaussian_tanh", "mt_q", "mt_encoder_policy",
         "deep_mlp"]
@@ -70,8 +72,10 @@ def run_case(case):
 def make_buffer(cls, N, H):
     import rl_blox.blox.replay_buffer as rb
 
-    if cls.startswith("Multi:"):
-        return rb.MultiTaskReplayBuffer(make_buffer(cls[6:], N, H), 2)
+    if cls.startswith("Multi"):
+        head, base = cls.split(":", 1)
+        return rb.MultiTaskReplayBuffer(make_buffer(base, N, H),
+                                        int(head[5:] or 2))
     if cls == "Sub":
         return rb.SubtrajectoryReplayBuffer(max(N, H + 1), horizon=H)
     if cls == "SubPER":
@@ -81,14 +85,21 @@ def make_buffer(cls, N, H):
 
 def gen_ops(rng, cls, n):
     sub = "Sub" in cls
-    multi = cls.startswith("Multi:")
+    multi = cls.startswith("Multi")
+    pool = [8, 0, 11, 3, 1, 9] if cls.startswith("Multi12") else [0, 1]
     prio = any(x in cls for x in ("LAP", "Prioritized", "PER"))
     ops = []
     g = 0
+    if cls.startswith("Multi12"):
+        ops.append(("select", pool[0]))
     for _ in range(n):
         r = rng.random()
-        if multi and r < 0.1:
-            ops.append(("select", int(rng.integers(2))))
+        if multi and r < (0.25 if len(pool) > 2 else 0.1):
+            # tasks are first visited in the pool's (non-ascending) order
+            seen = [o[1] for o in ops if o[0] == "select"]
+            new = [t for t in pool if t not in seen]
+            ops.append(("select", new[0] if new and rng.random() < 0.7
+                        else int(rng.choice(pool))))
         elif r < 0.6 or g == 0:
             g += 1
             end = rng.random() < 0.2
@@ -136,7 +147,7 @@ def apply_op(buf, op, cls, H, ctx):
         bs, seed, inter = op[1], op[2], op[3]
         rng = np.random.default_rng(seed)
         if sub:
-            inner = buf.buffers if cls.startswith("Multi:") else [buf]
+            inner = buf.buffers if cls.startswith("Multi") else [buf]
             # need an admissible start in every buffer that may be chosen
             for b in inner:
                 if len(b) and not np.any(np.asarray(b.mask_)[: len(b)] > 0):
@@ -152,7 +163,7 @@ def apply_op(buf, op, cls, H, ctx):
         if not ctx.get("sampled"):
             return None
         inner = buf.buffers[getattr(buf, "sampled_task_idx", 0)] \
-            if cls.startswith("Multi:") else buf
+            if cls.startswith("Multi") else buf
         n = len(inner.priority.sampled_indices)
         if n == 0:
             return None
